@@ -38,7 +38,8 @@ def _crate_copy(wd, label, c):
         shutil.copy(lock, os.path.join(base, c["crate"], "Cargo.lock"))
     if runner.REPO != "/repo":
         ct = os.path.join(base, c["crate"], "Cargo.toml")
-        open(ct, "w").write(open(ct).read().replace('path = "/repo"', 'path = "%s"' % runner.REPO))
+        txt = open(ct).read().replace('path = "/repo"', 'path = "%s"' % runner.REPO)
+        open(ct, "w").write(txt)
     return os.path.join(base, c["crate"])
 
 
